@@ -121,6 +121,8 @@ func genInject(seed uint64, n int, out string) {
 			s.name = "custom" + s.name[len(strings.Split(s.name, "+")[0]):]
 		case "spire":
 			s.name = "spire" + s.name[len(strings.Split(s.name, "+")[0]):]
+		case "sidecar,verif":
+			s.name = "funcs" + s.name[len(strings.Split(s.name, "+")[0]):]
 		}
 		// namespace of the admission request; the pod's own namespace is set separately (genPod)
 		ns := wire.Pick(r, []string{"default", "default", "", "test-ns", "istio-system"})
@@ -157,7 +159,7 @@ func genInject(seed uint64, n int, out string) {
 			// decision-only: the really injected pod, changed so that the documented decision is "never", admitted again
 			o.Line("case", fmt.Sprint(c), "inject")
 			o.Line("redecide", s.name, wire.Enc(ns), wire.Enc(string(b)),
-				wire.Pick(r, []string{"label-false", "annotation-false", "namespace-ignored", "request-namespace-ignored", "host-network"}))
+				wire.Pick(r, []string{"label-false", "annotation-false", "namespace-ignored", "request-namespace-ignored", "host-network", "probe-reset", "probe-reset"}))
 			c++
 		}
 	}
@@ -465,7 +467,7 @@ func genPod(r *wire.Rng) *corev1.Pod {
 		ann["sidecar.istio.io/inject"] = wire.Pick(r, []string{"true", "false", "true", "false", "", "maybe"})
 	}
 	if r.Chance(1, 3) {
-		ann["inject.istio.io/templates"] = wire.Pick(r, []string{"sidecar", "gateway", "gateway", "grpc-agent", "grpc-agent", "grpc-simple", "grpc-simple", "nonexistent", "custom", "custom", "spire", "spire",
+		ann["inject.istio.io/templates"] = wire.Pick(r, []string{"sidecar", "gateway", "gateway", "grpc-agent", "grpc-agent", "grpc-simple", "grpc-simple", "nonexistent", "custom", "custom", "spire", "spire", "sidecar,verif", "sidecar,verif",
 			"sidecar,custom", "sidecar, custom", "myalias", "waypoint", "kube-gateway", "agentgateway", "agentgateway-waypoint"})
 	}
 	if r.Chance(1, 12) {
@@ -507,9 +509,21 @@ func genPod(r *wire.Rng) *corev1.Pod {
 	if r.Chance(1, 10) {
 		ann["sidecar.istio.io/nativeSidecar"] = wire.Pick(r, []string{"yes", "True", "", "FALSE", "1"}) // the templates read: anything but "false"
 	}
-	if strings.Contains(ann["inject.istio.io/templates"], "custom") {
-		// the test-only `custom` template of testdata patches istio-proxy under `containers`: not combined with the native placement
+	if strings.Contains(ann["inject.istio.io/templates"], "custom") || strings.Contains(ann["inject.istio.io/templates"], "verif") {
+		// the test-only `custom` template of testdata and the harness' own `verif` template patch istio-proxy under `containers`:
+		// not combined with the native placement (the pod does not carry its own native istio-proxy either)
 		ann["sidecar.istio.io/nativeSidecar"] = "false"
+	}
+	if nativeUserProxy && ann["sidecar.istio.io/nativeSidecar"] == "false" {
+		// drop the user's native istio-proxy again: this pod is pinned to the regular placement
+		var keep []corev1.Container
+		for _, c := range pod.Spec.InitContainers {
+			if c.Name != "istio-proxy" {
+				keep = append(keep, c)
+			}
+		}
+		pod.Spec.InitContainers = keep
+		nativeUserProxy = false
 	}
 	if nativeUserProxy {
 		ann["sidecar.istio.io/nativeSidecar"] = "true"
